@@ -1,0 +1,11 @@
+//go:build verif
+
+// Contracts for the cluster handle (read as text by /verif's govc; comment-only).
+
+package cluster
+
+//@ # the host key does not change while a node runs: a deterministic function of the handle
+//@ spec func SpecHostKey(c *Cluster) node.Key
+//@ trusted func (c *Cluster) HostKey() (k node.Key)
+//@   ensures k == SpecHostKey(c)
+//@   modifies nothing
